@@ -1,6 +1,6 @@
 /*UNIT
-{"props": ["C12"], "src": ["lib/log.c"], "mode": "plain", "kind": "bounded", "unwind": 5, "unwindset": ["harness.1:33"],
- "bound": "one registered call-site section with 2 entries, <= 2 filters already stored for the target, filter texts of <= 2 characters (or \"*\")",
+{"props": ["C12"], "src": ["lib/log.c"], "mode": "plain", "kind": "bounded", "unwind": 4,
+ "bound": "target slots 4 and 31 (accepted calls; the refusal table is proved for every slot number), one registered call-site section with 2 entries, <= 2 filters already stored, filter texts of <= 2 characters (or \"*\"), types FORMAT and the three regex types",
  "functions": ["qb_log_filter_ctl2", "_log_filter_store", "_log_filter_exists", "_log_filter_apply", "_log_filter_apply_to_cs", "_cs_matches_filter_"],
  "stubs": ["calloc / strdup (fresh or NULL)", "regcomp (may fail)", "regexec / strstr (any result, fixed for the call)", "pthread_rwlock_* (sequential no-ops)"],
  "expect_classes": ["assertion"], "timeout": 300,
@@ -67,40 +67,70 @@ void harness(void)
 	struct qb_log_callsite cs0 = verif_sites[nd_wsite];
 
 #ifdef V_VALID
-	/* the target slot, when the number names one */
-	int t_ok = nd_t >= 0 && nd_t < QB_LOG_TARGET_MAX;
-	if (t_ok) {
-		VERIF_FOR_SLOT(k, nd_t) { conf[k].pos = (uint32_t)k; conf[k].state = (enum qb_log_target_state)nd_state; qb_list_init(&conf[k].filter_head); }
+	/* mode 0: EVERY slot number (any int32), no text            -> the range / unused / initialised checks for all t
+	 * mode 1: slot numbers -1 and 32, text given                 -> out-of-range is EBADF whatever the other arguments are
+	 * mode 2: slots 4 and 31, text given, every other argument   -> the remaining rows of the table
+	 * (a symbolic slot number on a path that reaches the filter store costs minutes of symex; see log_common.h) */
+	VERIF_ND(uint8_t, nd_mode);
+	VERIF_ND(uint8_t, nd_alt);
+	ASSUME(nd_mode <= 2 && nd_alt <= 1);
+	int32_t t = nd_mode == 0 ? nd_t : nd_mode == 1 ? (nd_alt ? -1 : QB_LOG_TARGET_MAX) : (nd_alt ? 4 : 31);
+	int t_ok = t >= 0 && t < QB_LOG_TARGET_MAX;
+	ASSUME(nd_mode != 0 || nd_text_kind == 0);
+	ASSUME(nd_mode == 0 || nd_text_kind != 0);
+	conf[4].pos = 4; conf[4].state = (enum qb_log_target_state)nd_state; qb_list_init(&conf[4].filter_head);
+	conf[31].pos = 31; conf[31].state = (enum qb_log_target_state)nd_state; qb_list_init(&conf[31].filter_head);
+	ASSUME(nd_mode != 0 || !t_ok || t == 4 || t == 31 || nd_state == QB_LOG_STATE_UNUSED || 1);
+	int t_unused = t_ok && ((t == 4 || t == 31) ? nd_state == QB_LOG_STATE_UNUSED : 0);
+	if (nd_mode == 0 && t_ok && t != 4 && t != 31) {
+		/* the other slots: zero-initialised conf[] entries are not UNUSED (UNUSED == 1); give slot 7 a real state */
+		conf[7].state = (enum qb_log_target_state)nd_state;
+		t_unused = (t == 7) && nd_state == QB_LOG_STATE_UNUSED;
 	}
 	int target_op = nd_c == QB_LOG_FILTER_ADD || nd_c == QB_LOG_FILTER_REMOVE || nd_c == QB_LOG_FILTER_CLEAR_ALL;
 	int bad_args = nd_text_kind == 0 || nd_low < nd_high || nd_type > QB_LOG_FILTER_FORMAT_REGEX || nd_c > QB_LOG_TAG_CLEAR_ALL;
-	int refused = !nd_inited || (target_op && (!t_ok || nd_state == QB_LOG_STATE_UNUSED)) || bad_args;
+	int refused = !nd_inited || (target_op && (!t_ok || t_unused)) || bad_args;
 	ASSUME(refused);           /* accepted calls: variants add / clear */
+	int32_t rc;
+	const char *txt = nd_text_kind ? text : NULL;
 
-	int32_t rc = qb_log_filter_ctl2(nd_t, (enum qb_log_filter_conf)nd_c, (enum qb_log_filter_type)nd_type,
-					nd_text_kind ? text : NULL, nd_high, nd_low);
+	if (nd_mode == 0) {
+		rc = qb_log_filter_ctl2(nd_t, (enum qb_log_filter_conf)nd_c, (enum qb_log_filter_type)nd_type, NULL, nd_high, nd_low);
+	} else if (nd_mode == 1 && nd_alt) {
+		rc = qb_log_filter_ctl2(-1, (enum qb_log_filter_conf)nd_c, (enum qb_log_filter_type)nd_type, txt, nd_high, nd_low);
+	} else if (nd_mode == 1) {
+		rc = qb_log_filter_ctl2(QB_LOG_TARGET_MAX, (enum qb_log_filter_conf)nd_c, (enum qb_log_filter_type)nd_type, txt, nd_high, nd_low);
+	} else if (nd_alt) {
+		rc = qb_log_filter_ctl2(4, (enum qb_log_filter_conf)nd_c, (enum qb_log_filter_type)nd_type, txt, nd_high, nd_low);
+	} else {
+		rc = qb_log_filter_ctl2(31, (enum qb_log_filter_conf)nd_c, (enum qb_log_filter_type)nd_type, txt, nd_high, nd_low);
+	}
 
-	COVER(!nd_inited); COVER(nd_inited && target_op && nd_t == QB_LOG_TARGET_MAX); COVER(nd_inited && target_op && nd_t < 0);
-	COVER(nd_inited && target_op && t_ok && nd_state == QB_LOG_STATE_UNUSED);
-	COVER(nd_inited && !target_op && nd_text_kind == 0); COVER(nd_inited && nd_low < nd_high && nd_text_kind);
+	COVER(!nd_inited); COVER(nd_inited && target_op && nd_mode == 0 && nd_t > QB_LOG_TARGET_MAX); COVER(nd_inited && target_op && nd_mode == 0 && nd_t < -1);
+	COVER(nd_inited && target_op && nd_mode == 1);
+	COVER(nd_inited && target_op && t_ok && t_unused && nd_mode == 2);
+	COVER(nd_inited && target_op && nd_mode == 0 && t == 7 && t_unused);
+	COVER(nd_inited && !target_op && nd_text_kind == 0); COVER(nd_inited && nd_low < nd_high && nd_text_kind && t_ok && !t_unused);
 	COVER(nd_inited && nd_type == QB_LOG_FILTER_FORMAT_REGEX + 1 && nd_text_kind && nd_low >= nd_high && !target_op);
-	COVER(nd_inited && nd_c == QB_LOG_TAG_CLEAR_ALL + 1);
-	COVER(nd_inited && nd_c == QB_LOG_FILTER_CLEAR_ALL && t_ok && nd_state != QB_LOG_STATE_UNUSED && nd_text_kind == 0);
+	COVER(nd_inited && nd_c == QB_LOG_TAG_CLEAR_ALL + 1 && nd_text_kind);
+	COVER(nd_inited && nd_c == QB_LOG_FILTER_CLEAR_ALL && t_ok && !t_unused && nd_text_kind == 0);
 	if (!nd_inited) {
 		POST(rc == -EINVAL, "filter control before initialisation is refused with EINVAL");
-	} else if (target_op && (!t_ok || nd_state == QB_LOG_STATE_UNUSED)) {
+	} else if (target_op && (!t_ok || t_unused)) {
 		POST(rc == -EBADF, "a target filter operation on a slot that is out of range or unused is refused with EBADF");
 	} else {
 		POST(rc == -EINVAL, "missing text, inverted priority window, unknown type or unknown operation are refused with EINVAL");
 	}
 	POST(verif_sites[nd_wsite].targets == cs0.targets && verif_sites[nd_wsite].tags == cs0.tags, "a refused filter call changes no call site");
-	POST(qb_list_empty(&tags_head) && verif_alloc_calls == 0, "a refused filter call stores nothing");
+	POST(qb_list_empty(&tags_head) && qb_list_empty(&conf[4].filter_head) && qb_list_empty(&conf[31].filter_head) && verif_alloc_calls == 0, "a refused filter call stores nothing");
 	POST(verif_rwlock_depth == 0, "list lock released on every exit");
 #else
-	/* accepted calls on slot nd_t (case split on the slot number: constant inside) */
-	ASSUME(nd_t >= 0 && nd_t < QB_LOG_TARGET_MAX && nd_state != QB_LOG_STATE_UNUSED && nd_inited && nd_text_kind != 0 && nd_low >= nd_high);
-	ASSUME(nd_type <= QB_LOG_FILTER_FORMAT_REGEX);
-	ASSUME(nd_type >= QB_LOG_FILTER_FORMAT || nd_text_kind == 1);     /* file/function lists: units match.tokens */
+	/* accepted calls on slot 4 or 31 */
+	VERIF_ND(uint8_t, nd_alt);
+	ASSUME(nd_alt <= 1);
+	nd_t = nd_alt ? 4 : 31;
+	ASSUME(nd_state != QB_LOG_STATE_UNUSED && nd_inited && nd_text_kind != 0 && nd_low >= nd_high);
+	ASSUME(nd_type >= QB_LOG_FILTER_FORMAT && nd_type <= QB_LOG_FILTER_FORMAT_REGEX);     /* file/function lists: units match.tokens */
 #ifdef V_ADD
 	ASSUME(nd_c == QB_LOG_FILTER_ADD || nd_c == QB_LOG_TAG_SET);
 #else
@@ -110,23 +140,26 @@ void harness(void)
 	/* already stored: nd_nstored filters of another kind (so no duplicate) or, for f1, possibly the very same one */
 	VERIF_ND(uint8_t, nd_dup);
 	int32_t rc = 0;
-	VERIF_FOR_SLOT(k, nd_t) {
-		conf[k].pos = (uint32_t)k; conf[k].state = (enum qb_log_target_state)nd_state; qb_list_init(&conf[k].filter_head);
-		head = is_tag ? &tags_head : &conf[k].filter_head;
-		if (nd_nstored >= 1) {
-			if (nd_dup) {
-				f1 = verif_new_filter((enum qb_log_filter_conf)nd_c, (enum qb_log_filter_type)nd_type, nd_text_kind == 1, (char)nd_c0, (char)nd_c1,
-						      nd_high, nd_low, (uint32_t)k, -1);
-			} else {
-				f1 = verif_new_filter((enum qb_log_filter_conf)nd_c, QB_LOG_FILTER_FORMAT, 0, 'x', 'y', 0, 0, (uint32_t)k + 100, -1);
-			}
-			qb_list_add_tail(&f1->list, head);
+	conf[4].pos = 4; conf[4].state = (enum qb_log_target_state)nd_state; qb_list_init(&conf[4].filter_head);
+	conf[31].pos = 31; conf[31].state = (enum qb_log_target_state)nd_state; qb_list_init(&conf[31].filter_head);
+	head = is_tag ? &tags_head : (nd_alt ? &conf[4].filter_head : &conf[31].filter_head);
+	if (nd_nstored >= 1) {
+		if (nd_dup) {
+			f1 = verif_new_filter((enum qb_log_filter_conf)nd_c, (enum qb_log_filter_type)nd_type, nd_text_kind == 1, (char)nd_c0, (char)nd_c1,
+					      nd_high, nd_low, (uint32_t)nd_t, -1);
+		} else {
+			f1 = verif_new_filter((enum qb_log_filter_conf)nd_c, QB_LOG_FILTER_FORMAT, 0, 'x', 'y', 0, 0, (uint32_t)nd_t + 100, -1);
 		}
-		if (nd_nstored >= 2) {
-			f2 = verif_new_filter((enum qb_log_filter_conf)nd_c, QB_LOG_FILTER_FORMAT, 0, 'p', 'q', 0, 0, (uint32_t)k + 200, -1);
-			qb_list_add_tail(&f2->list, head);
-		}
-		rc = qb_log_filter_ctl2(k, (enum qb_log_filter_conf)nd_c, (enum qb_log_filter_type)nd_type, text, nd_high, nd_low);
+		qb_list_add_tail(&f1->list, head);
+	}
+	if (nd_nstored >= 2) {
+		f2 = verif_new_filter((enum qb_log_filter_conf)nd_c, QB_LOG_FILTER_FORMAT, 0, 'p', 'q', 0, 0, (uint32_t)nd_t + 200, -1);
+		qb_list_add_tail(&f2->list, head);
+	}
+	if (nd_alt) {
+		rc = qb_log_filter_ctl2(4, (enum qb_log_filter_conf)nd_c, (enum qb_log_filter_type)nd_type, text, nd_high, nd_low);
+	} else {
+		rc = qb_log_filter_ctl2(31, (enum qb_log_filter_conf)nd_c, (enum qb_log_filter_type)nd_type, text, nd_high, nd_low);
 	}
 	struct qb_log_callsite *w = &verif_sites[nd_wsite];
 	int skipped = (nd_wsite == 0 && nd_lineno0 == 0);          /* unused section entry */
